@@ -644,3 +644,141 @@ def c04(a):
     v.cov["exhaustive"] = True
     v.sample({"text": "{ a} + B * a1 + {a}", "vars": [" a", "B", "a", "a1"]})
     return v.finish()
+
+
+def val_pipeline(v, pid, tier):
+    """Value-type grid (C16/C17): MC_Val enumerates operators x catalogue x widths with ValSem's requirement,
+    the recorder applies the real operators (direct / through variables / through folded literals), Judge_Val decides.
+    Returns list of (src, verdict, via, record)."""
+    q = tier == "quick"
+    out = []
+    runs = [dict(widths="{8, 16}", lemma=7 if q else 8, tag="a"), dict(widths="{32}", lemma=0, tag="b"), dict(widths="{64}", lemma=0, tag="c")]
+    jobs = []
+    for r in runs:
+        tag = f"{pid}/mcval-{r['tag']}"
+        cfg = work(tag + ".cfg")
+        write_cfg(cfg, {"Widths": ("=", r["widths"]), "LemmaW": r["lemma"], "Emit": True}, invariants=["ReqTotal", "ArithLemma", "EmitCases"])
+        jobs.append(lambda tag=tag, cfg=cfg: (tag,) + pipeline.gen_replay_shard("MC_Val", cfg, tag, ["valgrid"], workers=5))
+    obs = []
+    for tag, res, summ, obsp in parallel(jobs, 3):
+        if res.violated or res.error:
+            print(res.out[-3000:])
+            raise vlib.ToolError(f"MC_Val {tag}: {res.violated or res.error} - ValSem inconsistent (spec bug)")
+        v.add_tlc(res, tag)
+        v.cov["traces_validated_against_impl"] += summ["runs"]
+        v.cov["evaluations"] += summ["runs"]
+        obs.append(obsp)
+    # direction B: random operands
+    n = 6000 if q else 100000
+    gen = work(pid, "fuzzval.cases.ndjson")
+    with open(gen, "wb") as f:
+        p = vlib.run_recorder(["fuzz-val", "--n", str(n)], stdout_path=None)
+        if p.returncode != 0:
+            raise vlib.ToolError("fuzz-val generator failed")
+        f.write(p.stdout)
+    fo = work(pid, "fuzzval.obs.ndjson")
+    p = vlib.run_recorder(["valgrid", "--summary", fo + ".sum"], stdin_path=gen, stdout_path=fo)
+    if p.returncode != 0:
+        v.violation({"pipeline": "fuzz-val"}, "value operators: the library aborted the recorder process on random operands")
+    else:
+        summ = json.load(open(fo + ".sum"))
+        v.cov["traces_validated_against_impl"] += summ["runs"]
+        v.cov["evaluations"] += summ["runs"]
+        obs.append(fo)
+    parts = []
+    for o in obs:
+        parts += pipeline.split_ndjson(o, 12000)
+    jres = parallel([(lambda p=p: (p, pipeline.judge_expr(p, f"{pid}-jval-{os.path.basename(p)}", module="Judge_Val"))) for p in parts], 10)
+    for p, (r, verdicts) in jres:
+        v.add_tlc(r, f"Judge_Val[{os.path.basename(p)}]")
+        recs = None
+        for case, (src, verdict, via) in verdicts.items():
+            if verdict == "ok":
+                continue
+            if recs is None:
+                recs = {}
+                for line in open(p):
+                    qq = json.loads(line)
+                    recs[qq["case"]] = qq
+            out.append((src, verdict, via, recs.get(case)))
+    v.notes.append("MC_Val: ArithLemma (overflow-free checked arithmetic, bit operations and shifts of ValSem = plain mathematics on all "
+                   "pairs of a 7/8-bit width), ReqTotal; grid = 27 binary x 39^2 + 35 unary x 39 catalogue values per width 8/16/32 "
+                   "(+ a width-64 catalogue of named wide integers) + random operands; three routes per case: direct fn pointer, "
+                   "variables of parse_val, literals folded at parse time")
+    return out
+
+
+def describe_val(rec):
+    def d(x):
+        if x is None:
+            return "-"
+        k = x.get("k")
+        if k == "int":
+            return f"Int({x.get('name') or x['v']})"
+        if k == "float":
+            return f"Float({x.get('name') or (x['q'] / 4 if x.get('x') else x['c'])})"
+        if k == "bool":
+            return f"Bool({x['v']})"
+        if k == "array":
+            return "Array[%d]" % len(x["v"])
+        return k
+    if not rec:
+        return "?"
+    return f"w={rec['w']} {rec['op']}({d(rec.get('a'))}{', ' + d(rec.get('b')) if rec.get('ar') == 2 else ''}) -> " + \
+           ", ".join(f"{k}:{d(vv)}" for k, vv in rec["res"].items())
+
+
+def mirror_fuzz(v, pid, tier, fams, what):
+    n = 1500 if tier == "quick" else 20000
+    jobs = []
+    for fam in fams:
+        for k in range(3):
+            tag = f"{pid}/fuzz-{fam}-{k}"
+            jobs.append(lambda tag=tag, fam=fam, k=k: (tag,) + pipeline.fuzz_replay(
+                tag, ["fuzz-expr", "--family", fam, "--n", str(n), "--stream", str(k)], ["--forward-all", "--entries", "flat,flat_wo,deep"]))
+    good = []
+    for tag, summ, obsp in parallel(jobs):
+        if summ.get("crashed"):
+            v.violation({"pipeline": tag, "detail": summ}, f"{what}: the library aborted the recorder process in {tag}")
+        else:
+            good.append((tag, obsp))
+            v.cov["traces_validated_against_impl"] += summ["runs"]
+            v.cov["evaluations"] += summ["runs"]
+    for p, (r, verdicts) in parallel([(lambda t=t, p=p: (p, pipeline.judge_expr(p, t.replace("/", "-")))) for t, p in good], 6):
+        v.add_tlc(r, f"Judge_Expr[{os.path.basename(p)}]")
+        file_verdicts(v, p, verdicts, what, classes={"wf"})
+
+
+@register("C16")
+def c16(a):
+    v = Verdict("C16", a.tier, "model_checking")
+    bad = val_pipeline(v, "C16", a.tier)
+    for src, verdict, via, rec in bad:
+        if src == "C16" and verdict != "bad:panic":
+            v.violation({"record": rec}, f"value-typed arithmetic: {describe_val(rec)} violates the documented rule ({verdict} via {via})")
+    mirror_fuzz(v, "C16", a.tier, ["mirror-val"], "precedence semantics over the value operator table (structural mirror with the real priorities and flags)")
+    v.notes.append("precedence over the value table: random expressions over a structural mirror of ValOpsFactory::make() (names, "
+                   "priorities, commutativity flags read from the implementation) judged by Judge_Expr - this is where `10 - 2 + 3` "
+                   "and `x == 2 == false` are decided")
+    v.cov["rule"] = "full product operators x catalogue per width (exhaustive) + random operands; non-trivial = every case"
+    v.cov["distinct_nontrivial"] = v.cov["evaluations"] // 3
+    v.cov["exhaustive"] = True
+    v.sample({"w": 8, "op": "+", "a": "Int(127)", "b": "Int(1)", "required": "error value"})
+    v.assumptions += ["floats are judged exactly only on multiples of 1/4 of small magnitude, otherwise by kind and IEEE class",
+                      "elementwise array results are judged by kind only"]
+    return v.finish()
+
+
+@register("C17")
+def c17(a):
+    v = Verdict("C17", a.tier, "model_checking")
+    bad = val_pipeline(v, "C17", a.tier)
+    for src, verdict, via, rec in bad:
+        if verdict == "bad:panic" or src == "C17":
+            v.violation({"record": rec}, f"value-typed operator not total: {describe_val(rec)} ({verdict} via {via})")
+    v.cov["rule"] = "every unary operator x every catalogue value, every binary operator x every ordered pair (exhaustive) + random operands"
+    v.cov["distinct_nontrivial"] = v.cov["evaluations"] // 3
+    v.cov["exhaustive"] = True
+    v.sample({"w": 32, "op": "to_int", "a": "Float(nan)", "required": "error value"})
+    v.assumptions.append("built with overflow-checks = on, so that a silently wrapped result would surface as a panic or a wrong value")
+    return v.finish()
